@@ -36,6 +36,7 @@ type Obligation struct {
 	Secs    float64
 	Detail  string
 	Model   string
+	fc      *FuncCtx // the function context that generated it (replay)
 }
 
 type FuncCtx struct {
@@ -56,6 +57,7 @@ type FuncCtx struct {
 	callCount        map[string]int
 	assertSeen       map[string]bool
 	curTags          []string
+	entryArgs        []Val // entry values of the parameters (replay)
 }
 
 type ModLoc struct {
@@ -204,6 +206,7 @@ func VerifyFunction(p *Program, fn *ssa.Function, c *Contract) (fc *FuncCtx, err
 		}
 	}
 	fc.entry = st.clone()
+	fc.entryArgs = args
 	fr.entrySt = fc.entry
 	fc.bindParams(fr, fn, args, fvs, st)
 	fc.entryVars = fr.params
